@@ -5,7 +5,7 @@ results: /tmp/campaign/<PROP>-<x>.json"""
 import json, os, re, shutil, subprocess, sys, time
 
 OUT = "/tmp/campaign"
-VM = "/tmp/vm"
+VM = os.environ.get("CAMPAIGN_VM", "/tmp/vm")
 os.makedirs(OUT, exist_ok=True)
 ENV = dict(os.environ, CARGO_NET_OFFLINE="true")
 PROPS = [f"C{i:02d}" for i in range(1, 19)]
@@ -61,7 +61,7 @@ def confirm(wt, x):
 
 
 def run_checks(patch, props):
-    d = "/tmp/mrepo-campaign"
+    d = "/tmp/mrepo-campaign-" + os.path.basename(VM)
     shutil.rmtree(d, ignore_errors=True)
     os.makedirs(d)
     for y in ("src", "hannibal-derive"):
